@@ -114,6 +114,13 @@ def gen_base(rng, tier, index):
         case["worker_opts"] = {"end_raises": True}         # the workers' clean-up hook fails: they are replaced all the same
     if factory and quota and index % 8 == 2:
         case["frac_quota"] = rng.choice([0.5, 0.25])       # max_chunks_per_worker=2.5: the worker is replaced all the same
+    if factory and quota and index % 8 == 1 and "worker_opts" not in case:
+        case["worker_opts"] = {"quota_in_begin": quota}        # the chunk limit is set by the worker itself, in begin()
+    if index % 8 == 4:
+        # one generator used by two threads one after the other (the first result taken by a helper thread); the exhausted generator
+        # of a call still referenced, and released, while the next call is being read
+        calls[0]["first_next_in_thread"] = True
+        case["release_prev_mid_call"] = True
     if index % 8 == 3:
         case["create_all_first"] = True                    # all result generators built first, consumed one after the other
     if factory and quota and index % 8 == 1:
